@@ -548,7 +548,7 @@ fn threshold(r: &Report) {
 pub fn run(r: &Report) {
     let mut st = SortStats::default();
     let decisive = per_pass_family(r, &mut st);
-    let max_n = r.pick(4, 5);
+    let max_n = r.pick(4, 6);
     st = st.merge(all_sequences(r, 0, max_n));
     if r.thorough() {
         st = st.merge(all_sequences(r, 1, 4));
